@@ -206,14 +206,14 @@ let () =
         let input = bytes_of_hex f.(4) in
         let ms = n_of_dec f.(3) in
         let cls = f.(5) and outhex = f.(6) in
-        let model_cls, model_out =
-          match crop_tool input ms with
-          | None -> ("unmodelled", "-")
-          | Some (Ok out) -> ("ok", (match out with [] -> "-" | _ -> hex_of_bytes out))
-          | Some Err -> ("err", "-") | Some Panic -> ("panic", "-") | Some OutOfFuel -> ("outoffuel", "-") in
-        let sizes_ok = match crop_tool_sizes input ms with
-          | Some (Ok (a, b)) -> BinNat.N.eqb a b
-          | _ -> true in
+        let model_cls, model_out, sizes_ok, hyps =
+          match crop_tool_report input ms with
+          | None -> ("unmodelled", "-", true, "?")
+          | Some (Ok ((out, (a, b)), (ex, fi))) ->
+            ("ok", (match out with [] -> "-" | _ -> hex_of_bytes out), BinNat.N.eqb a b,
+             (if ex then "exact" else "INEXACT") ^ "," ^ (if fi then "fits" else "NOFIT"))
+          | Some Err -> ("err", "-", true, "?") | Some Panic -> ("panic", "-", true, "?")
+          | Some OutOfFuel -> ("outoffuel", "-", true, "?") in
         if model_cls <> cls then Printf.printf "MISMATCH %s tool class model=%s impl=%s\n" id model_cls cls
         else if cls = "ok" && S.lowercase_ascii model_out <> S.lowercase_ascii outhex then begin
           let n = min (S.length model_out) (S.length outhex) in
@@ -225,7 +225,11 @@ let () =
             (S.sub outhex (!i / 2 * 2) (min 32 (S.length outhex - !i / 2 * 2)))
         end
         else if not sizes_ok then Printf.printf "MISMATCH %s tool encoded-size-vs-sizeWithoutMdat model-internal\n" id
-        else Printf.printf "OK %s\n" id
+        else begin
+          (* the hypotheses of C10_output_decodes on this case (reported, not a mismatch) *)
+          let hy = if cls <> "ok" then "" else " hyps=" ^ hyps in
+          Printf.printf "OK %s%s\n" id hy
+        end
       end
       else if f.(2) = "hdr" || f.(2) = "mdat" then begin
         let id = f.(1) and op = f.(2) in
